@@ -9,7 +9,7 @@
 From Coq Require Import String List Bool ZArith.
 Import ListNotations.
 From Osmo Require Import Gen.C20_msgs C20.Model.
-Open Scope string_scope.
+Local Open Scope string_scope.
 
 Inductive tag :=
   | TWithdrawPosition | TAddToPosition | TTransferPositions | TCollectSpreadRewards | TCollectIncentives
